@@ -1,0 +1,90 @@
+//go:build verif
+
+package main
+
+// Case-file driven driver for the verification harness (property C11): calls combineInitSegments and
+// combineMediaSegments + writeSeg on k input files with the given output track ids.
+//
+// Input ($C11_COMB_CASES), one case per line:  <dir> <TAB> <k> <TAB> <id,id,...|->
+//   the inputs are <dir>/in<j>_init.mp4 and <dir>/in<j>.m4s for j = 0..k-1
+// Output: <dir>/out_init.mp4, <dir>/out.m4s (when written) and <dir>/rc with two words:
+//   <init class> <media class>, each ok | err | panic   (never error strings)
+
+import (
+	"bufio"
+	"fmt"
+	"os"
+	"path"
+	"strconv"
+	"strings"
+	"testing"
+)
+
+func c11CombClass(f func() error) (class string) {
+	defer func() {
+		if r := recover(); r != nil {
+			class = "panic"
+		}
+	}()
+	if err := f(); err != nil {
+		return "err"
+	}
+	return "ok"
+}
+
+func TestVerifCombDriver(t *testing.T) {
+	casesPath := os.Getenv("C11_COMB_CASES")
+	if casesPath == "" {
+		t.Skip("C11_COMB_CASES not set")
+	}
+	fh, err := os.Open(casesPath)
+	if err != nil {
+		t.Fatal(err)
+	}
+	defer fh.Close()
+	sc := bufio.NewScanner(fh)
+	sc.Buffer(make([]byte, 1<<20), 1<<26)
+	for sc.Scan() {
+		f := strings.Split(sc.Text(), "\t")
+		if len(f) != 3 {
+			t.Fatalf("bad case line %q", sc.Text())
+		}
+		dir := f[0]
+		k, err := strconv.Atoi(f[1])
+		if err != nil {
+			t.Fatal(err)
+		}
+		var ids []uint32
+		if f[2] != "-" {
+			for _, x := range strings.Split(f[2], ",") {
+				v, err := strconv.ParseUint(x, 10, 32)
+				if err != nil {
+					t.Fatal(err)
+				}
+				ids = append(ids, uint32(v))
+			}
+		}
+		var inits, medias []string
+		for j := 0; j < k; j++ {
+			inits = append(inits, path.Join(dir, fmt.Sprintf("in%d_init.mp4", j)))
+			medias = append(medias, path.Join(dir, fmt.Sprintf("in%d.m4s", j)))
+		}
+		initClass := c11CombClass(func() error {
+			init, err := combineInitSegments(inits, ids)
+			if err != nil {
+				return err
+			}
+			return writeSeg(init, path.Join(dir, "out_init.mp4"))
+		})
+		mediaClass := c11CombClass(func() error {
+			seg, err := combineMediaSegments(medias, ids)
+			if err != nil {
+				return err
+			}
+			return writeSeg(seg, path.Join(dir, "out.m4s"))
+		})
+		if err := os.WriteFile(path.Join(dir, "rc"), []byte(initClass+" "+mediaClass+"\n"), 0o644); err != nil {
+			t.Fatal(err)
+		}
+	}
+}
